@@ -657,3 +657,153 @@ func c09OddBuffers(x *X) {
 func init() {
 	register(&Scenario{Prop: "C09", Name: "c09/odd-buffer-sizes", Quick: []Bound{{0, 0}}, Thorough: []Bound{{1, 0}}, Body: c09OddBuffers, BudgetQ: 20, BudgetT: 200, MaxSteps: 400000, MinHB: 1})
 }
+
+// the receive queue of a stream is drained partly between two bursts (p1 messages pile up, r of
+// them are read, p2 more pile up, then everything is read): whatever the queue does when it wraps,
+// grows or shrinks, the messages come out once and in order.  Both directions (the handler's queue
+// behind a busy handler, the client's queue behind a reader that pauses).
+func c09PartialDrain(x *X) {
+	p1 := []int{10, 17, 33}[x.Choose(3)]
+	r := []int{1, 5, 9}[x.Choose(3)]
+	p2 := []int{12, 20, 40}[x.Choose(3)]
+	cliDio := x.Choose(2) == 1
+	f := newFixture(srvOpts{bufSize: 64}, cliOpts{bufSize: 64, directIO: cliDio})
+	st, err := f.conn.NewStream("StreamSvc.Push")
+	if err != nil {
+		x.Fail("C09/open-failed/partial-drain", "NewStream: %v", err)
+		return
+	}
+	var want, got [][]byte
+	n := 0
+	write := func(k int) {
+		for i := 0; i < k; i++ {
+			msg := streamMsg(0x31, n%7)
+			msg[1] = byte(n)
+			n++
+			if e := st.WriteMessage(&msg); e != nil {
+				x.Fail("C09/write-failed/partial-drain", "WriteMessage: %v", e)
+			}
+			want = append(want, transform(msg))
+		}
+		vs.Quiesce()
+	}
+	read := func(k int) bool {
+		for i := 0; i < k; i++ {
+			var m []byte
+			ret := false
+			var e error
+			vs.GoNamed("reader", func() { e = st.ReadMessage(nil, &m); ret = true })
+			vs.Quiesce()
+			if !ret || e != nil {
+				x.Fail("C09/client-blocked/partial-drain", "bursts of %d and %d messages with %d read in between: echo %d of %d: returned=%v err=%v", p1, p2, r, len(got), len(want), ret, e)
+				return false
+			}
+			got = append(got, append([]byte(nil), m...))
+		}
+		return true
+	}
+	// client-side queue: the handler echoes at once, the client reads late
+	write(p1)
+	ok := read(r)
+	if ok {
+		write(p2)
+		ok = read(len(want) - len(got))
+	}
+	// server-side queue: the handler is held while the bursts arrive, and is let go for r messages in between
+	if ok {
+		f.w.streamHold = true
+		write(p1)
+		f.w.streamHold = false
+		vs.Quiesce()
+		ok = read(r)
+	}
+	if ok {
+		write(p2)
+		ok = read(len(want) - len(got))
+	}
+	for i := range got {
+		if !eqBytes(got[i], want[i]) {
+			x.Fail("C09/client-sequence/partial-drain", "bursts of %d and %d messages with %d read in between (then the same with the handler held): echo %d is the echo of another message (got tag byte %d, want %d)", p1, p2, r, i, got[i][len(got[i])-2]^0x5A, want[i][len(want[i])-2]^0x5A)
+			break
+		}
+	}
+	x.Outcome("p1=%d r=%d p2=%d dio=%v got=%d/%d", p1, r, p2, cliDio, len(got), len(want))
+	st.Close()
+	f.conn.Close()
+	vs.Quiesce()
+}
+
+// two connections to one server, each opening a stream as its first operation (the same sequence
+// number on both), in every server mode: each stream's echoes go to its own client, and closing one
+// connection leaves the other's stream working.
+func c09TwoConnections(x *X) {
+	mode := sysModes[x.Choose(len(sysModes))]
+	n := newNet()
+	w := newWorld()
+	so := srvOpts{bufSize: 64}
+	var srv *rpc.Server
+	dial := func() *rpc.Conn { return nil }
+	if mode.listen {
+		n.pollWorkers = mode.workers
+		srv = newServer(w, so)
+		srv.SetPoll(mode.poll)
+		vs.GoLib("Listen", func() { srv.ListenWithOptions("srv", so.options(n, 0)) })
+		vs.Quiesce()
+		dial = func() *rpc.Conn {
+			c, err := rpc.DialWithOptions("srv", so.options(n, 64))
+			if err != nil {
+				vs.Fatal("dial failed: " + err.Error())
+			}
+			return c
+		}
+	} else {
+		srv = newServer(w, so)
+		dial = func() *rpc.Conn {
+			cl, sv := NewPipe()
+			serveCodec(srv, sv, so)
+			return newConn(cl, "", 64, nil)
+		}
+	}
+	c1, c2 := dial(), dial()
+	s1, e1 := c1.NewStream("StreamSvc.Push")
+	s2, e2 := c2.NewStream("StreamSvc.Push")
+	if e1 != nil || e2 != nil {
+		x.Fail("C09/open-failed/two-connections", "NewStream: %v / %v (mode %s)", e1, e2, mode.name)
+		return
+	}
+	exchange := func(st rpc.Stream, id byte, j int, label string) bool {
+		m := streamMsg(id, j)
+		var back []byte
+		var rerr error
+		ret := false
+		vs.GoNamed("exchange", func() {
+			st.WriteMessage(&m)
+			rerr = st.ReadMessage(nil, &back)
+			ret = true
+		})
+		vs.Quiesce()
+		if !ret || rerr != nil || !eqBytes(back, transform(m)) {
+			x.Fail("C09/client-sequence/two-connections", "%s (mode %s): wrote a message on the stream of connection %d and read: returned=%v err=%v echo-of-own-message=%v", label, mode.name, id-0x30, ret, rerr, eqBytes(back, transform(m)))
+			return false
+		}
+		return true
+	}
+	ok := exchange(s1, 0x31, 0, "both streams open") && exchange(s2, 0x32, 0, "both streams open") && exchange(s1, 0x31, 1, "both streams open")
+	if ok {
+		c1.Close()
+		vs.Quiesce()
+		ok = exchange(s2, 0x32, 1, "after the other connection was closed")
+	}
+	x.Outcome("%s ok=%v handlers=%d/%d", mode.name, ok, w.streamsEx, w.streamsIn)
+	c1.Close()
+	c2.Close()
+	if mode.listen {
+		srv.Close()
+	}
+	vs.Quiesce()
+}
+
+func init() {
+	register(&Scenario{Prop: "C09", Name: "c09/backlog-partial-drain", Quick: []Bound{{0, 0}}, Thorough: []Bound{{1, 0}}, Body: c09PartialDrain, BudgetQ: 20, BudgetT: 200, MaxSteps: 400000, MinHB: 1})
+	register(&Scenario{Prop: "C09", Name: "c09/two-connections-allmodes", Quick: []Bound{{0, 0}, {1, 0}}, Thorough: []Bound{{2, 0}}, Body: c09TwoConnections, BudgetQ: 15, MaxSteps: 200000})
+}
